@@ -58,8 +58,12 @@ func vfC09Oracle(in *vfGWInst, evFull string, pre, post *vfSnap) {
 			}
 			return
 		}
-		if pre.Direct[x] && sc < gs.graylistThreshold {
-			in.count("rpc_from_lowscore_direct_peer")
+		if pre.Direct[x] {
+			// RPCs from direct peers are always accepted: whatever their score and whatever the gater thinks
+			if sc < gs.graylistThreshold {
+				in.count("rpc_from_lowscore_direct_peer")
+			}
+			in.count("rpc_from_direct_peer")
 			if f[0] == "pub" {
 				label := f[2]
 				spec := g.msgs[label]
@@ -318,12 +322,14 @@ func vfC09Scenarios(thorough bool) []*vfGWScenario {
 	mk("px-over", true, "d2", append(append([]string{}, joined...), "graft:a:t", "graft:c:t", "graft:d:t"), []string{"hb", "score:a:-0.5", "score:c:1", "score:d:-0.5", "leave:t", "join:t", "graft:a:t"})
 	// validation-overload gater: m1 parks in the only validation slot, m2 is throttled (the gater's circuit
 	// breaker closes), m1 is then rejected (a's goodput drops): from here the gater consults its coin for a's RPCs
+	// (b is a direct peer with equally bad statistics: the gater must never get to judge it)
 	gmsgs := map[string]vfMsgSpec{"m1": {Topic: "t", Author: "x", Seq: 1, Size: 32}, "m2": {Topic: "t", Author: "x", Seq: 2, Size: 32},
-		"m3": {Topic: "t", Author: "x", Seq: 3, Size: 32}, "m4": {Topic: "t", Author: "x", Seq: 4, Size: 32}}
-	out = append(out, &vfGWScenario{Name: "gater", Cfg: vfGWCfg{Router: "gossip", Peers: peers[:1:1], Topics: []string{"t"}, Params: "d2", Scoring: true, Gater: true, ValThrottle: 1, SeenTTL: 3600,
-		Validators: []vfValCfg{{Name: "V", Topic: "t", Gated: true, GateOnly: []string{"m1"}}},
-		Prefix:     []string{"conn:a", "join:t", "sub:a:t", "pub:a:m1", "pub:a:m2", "vrel:V:m1:R"}},
-		Alphabet: []string{"pub:a:m3", "graft:a:t", "prune:a:t", "ihave:a:t:m4", "idw:a:m4", "hb"}, Msgs: gmsgs, Depth: d,
+		"m3": {Topic: "t", Author: "x", Seq: 3, Size: 32}, "m4": {Topic: "t", Author: "x", Seq: 4, Size: 32},
+		"m5": {Topic: "t", Author: "x", Seq: 5, Size: 32}, "m6": {Topic: "t", Author: "x", Seq: 6, Size: 32}}
+	out = append(out, &vfGWScenario{Name: "gater", Cfg: vfGWCfg{Router: "gossip", Peers: peers[:2:2], Topics: []string{"t"}, Params: "d2", Scoring: true, Gater: true, ValThrottle: 1, SeenTTL: 3600,
+		Validators: []vfValCfg{{Name: "V", Topic: "t", Gated: true, GateOnly: []string{"m1", "m5"}}},
+		Prefix:     []string{"conn:a", "conn:b", "join:t", "sub:a:t", "sub:b:t", "pub:a:m1", "pub:a:m2", "vrel:V:m1:R", "pub:b:m5", "vrel:V:m5:R"}},
+		Alphabet: []string{"pub:a:m3", "pub:b:m6", "graft:a:t", "prune:a:t", "ihave:a:t:m4", "idw:a:m4", "score:b:-5", "hb"}, Msgs: gmsgs, Depth: d,
 		DevKinds: []string{"coin"}, DevEvents: []string{"pub", "graft", "prune", "ihave", "idw"}, DevMax: 4})
 	return out
 }
